@@ -58,7 +58,7 @@ func main() {
 	switch cmd {
 	case "life":
 		tr := NewTracer(*out)
-		startWatchdog(tr, 120*time.Second, 6<<30)
+		startWatchdog(tr, 30*time.Second, 6<<30)
 		l := NewLife(tr, r, *dir)
 		l.maxTLC = *maxtlc
 		runLifeProfile(l, *profile, *n, *steps)
@@ -93,7 +93,7 @@ func main() {
 		fmt.Printf("files=%d events=%d\n", nf, tr.N)
 	case "life-rerun":
 		tr := NewTracer(*out)
-		startWatchdog(tr, 120*time.Second, 6<<30)
+		startWatchdog(tr, 30*time.Second, 6<<30)
 		l := NewLife(tr, r, *dir)
 		l.maxTLC = *maxtlc
 		l.Rerun(*in)
@@ -101,7 +101,7 @@ func main() {
 		fmt.Printf("events=%d\n", tr.N)
 	case "life-replay":
 		tr := NewTracer(*out)
-		startWatchdog(tr, 120*time.Second, 6<<30)
+		startWatchdog(tr, 30*time.Second, 6<<30)
 		l := NewLife(tr, r, *dir)
 		l.maxTLC = *maxtlc
 		if *nogc {
